@@ -106,6 +106,8 @@ pub fn with_fuel<T>(budget: u64, f: impl FnOnce() -> T) -> T {
 pub struct Env {
     pub pool: QuestionPool,
     pub corpus: Vec<String>,
+    /// a second directory in which voice files may already exist (simulated threads: the plan's main environment)
+    pub shared_dir: Option<PathBuf>,
     pub dir: PathBuf,
     voices: BTreeMap<VoiceRef, (Arc<Voice>, PathBuf, u32)>,
     next_uid: u32,
@@ -148,7 +150,7 @@ impl Env {
         }
         let dir = scratch_root().join(format!("{}-{}", tag, std::process::id()));
         std::fs::create_dir_all(&dir).map_err(|e| format!("mkdir {:?}: {}", dir, e))?;
-        Ok(Env { pool, corpus, dir, voices: BTreeMap::new(), next_uid: 0, bundled_bytes: None, labels: BTreeMap::new() })
+        Ok(Env { pool, corpus, shared_dir: None, dir, voices: BTreeMap::new(), next_uid: 0, bundled_bytes: None, labels: BTreeMap::new() })
     }
 
     /// Cheap environment for simulated threads: shares the corpus, has no question pool
@@ -156,7 +158,7 @@ impl Env {
     pub fn lite(tag: &str, corpus: &std::sync::Arc<Vec<String>>) -> Result<Env, String> {
         let dir = scratch_root().join(format!("{}-{}", tag, std::process::id()));
         std::fs::create_dir_all(&dir).map_err(|e| format!("mkdir {:?}: {}", dir, e))?;
-        Ok(Env { pool: QuestionPool { lines: Vec::new() }, corpus: corpus.as_ref().clone(), dir, voices: BTreeMap::new(), next_uid: 0, bundled_bytes: None, labels: BTreeMap::new() })
+        Ok(Env { pool: QuestionPool { lines: Vec::new() }, corpus: corpus.as_ref().clone(), shared_dir: None, dir, voices: BTreeMap::new(), next_uid: 0, bundled_bytes: None, labels: BTreeMap::new() })
     }
 
     pub fn voice_bytes(&mut self, v: &VoiceRef) -> Result<Vec<u8>, String> {
@@ -213,8 +215,17 @@ impl Env {
             _ => {
                 // deterministic name: a file written earlier (by this process or by the shard parent
                 // before it forked) is reused
-                let p = self.dir.join(format!("v-{:016x}.htsvoice", crate::rng::hash_bytes(v.to_text().as_bytes())));
+                let name = format!("v-{:016x}.htsvoice", crate::rng::hash_bytes(v.to_text().as_bytes()));
+                let mut p = self.dir.join(&name);
                 if !p.exists() {
+                    if let Some(q) = self.shared_dir.as_ref().map(|d| d.join(&name)).filter(|q| q.exists()) {
+                        p = q;
+                    }
+                }
+                if !p.exists() {
+                    if self.pool.lines.is_empty() && matches!(v, VoiceRef::Gen(_)) {
+                        return Err(format!("voice file of {} not found and this environment cannot generate voices", v.to_text()));
+                    }
                     let bytes = self.voice_bytes(v)?;
                     let tmp = self.dir.join(format!("tmp-{}-{}.htsvoice", std::process::id(), self.next_uid));
                     std::fs::write(&tmp, &bytes).map_err(|e| format!("write {:?}: {}", tmp, e))?;
